@@ -3,6 +3,7 @@ package nodesim
 import (
 	"fmt"
 	"sort"
+	"testing/synctest"
 
 	"pgregory.net/rapid"
 
@@ -19,8 +20,9 @@ import (
 
 // Act is one delivery-phase action on the observed node.
 type Act struct {
-	Kind string `json:"k"` // blk | tx | dup
+	Kind string `json:"k"` // blk | tx | dup | vote | quorum
 	Pick int    `json:"p,omitempty"`
+	Who  int    `json:"w,omitempty"`
 }
 
 // GenActs draws n delivery-phase actions. reorder: how far from in-order a block
@@ -36,6 +38,16 @@ func GenActs(rt *rapid.T, n, reorder int, withTx bool) []Act {
 			if withTx {
 				kind = "tx"
 			}
+		}
+		if rapid.IntRange(0, 11).Draw(rt, "voteq") == 11 {
+			// validators' verification messages reach the node: a single vote, or every validator's
+			// (which can justify a checkpoint of a shorter branch and move the best chain down)
+			k := "quorum"
+			if rapid.Bool().Draw(rt, "single") {
+				k = "vote"
+			}
+			acts = append(acts, Act{Kind: k, Pick: rapid.IntRange(0, 5).Draw(rt, "votetarget"), Who: rapid.IntRange(0, 3).Draw(rt, "voter")})
+			continue
 		}
 		pick := 0
 		if reorder > 0 && rapid.IntRange(0, 2).Draw(rt, "reorderq") > 0 {
@@ -168,6 +180,8 @@ func (o *Observer) Run(acts []Act) {
 			}
 			r.Count("fault.duplicate", 1)
 			o.Deliver(done[a.Pick%len(done)], true)
+		case "vote", "quorum":
+			o.votes(a)
 		case "tx":
 			if len(o.allTxs) == 0 {
 				continue
@@ -184,6 +198,46 @@ func (o *Observer) Run(acts []Act) {
 		o.remaining = o.remaining[1:]
 		o.Deliver(h, false)
 	}
+}
+
+// votes delivers validators' verification messages for a checkpoint the node has stored, from the
+// source an honest validator following this node would use.
+func (o *Observer) votes(a Act) {
+	w, r, n := o.W, o.W.R, o.N
+	var targets []*model.BlockState
+	for _, h := range w.Order[1:] {
+		s := w.Tree.Nodes[h]
+		h := h
+		if s.Height%w.P.E == 0 && s.Invalid == nil {
+			if _, err := n.Store.GetBlockHeader(&h); err == nil {
+				targets = append(targets, s)
+			}
+		}
+	}
+	if len(targets) == 0 {
+		return
+	}
+	tg := targets[len(targets)-1-a.Pick%len(targets)]
+	src := w.JustifiedSource(n, tg)
+	if src == nil {
+		return
+	}
+	vs := w.Tree.EffectiveValidators(w.Tree.CheckpointOf(tg.Parent).Votes)
+	for i, val := range vs {
+		if a.Kind == "vote" && i != a.Who%len(vs) {
+			continue
+		}
+		k := w.keyByPub[val.PubKey]
+		if k == nil {
+			continue
+		}
+		n.Activate()
+		err := n.Chain.ProcessBlockVerification(SignVote(k, src.Hash, tg.Hash))
+		synctest.Wait()
+		r.Count("events.vote", 1)
+		r.Tracef("vote by=%d %s->%s err=%v best=%s", k.Idx, w.name(src.Hash), w.name(tg.Hash), err != nil, w.name(n.Best()))
+	}
+	o.CheckAll(fmt.Sprintf("%s for %s", a.Kind, w.name(tg.Hash)))
 }
 
 // Deliver feeds one block and evaluates the armed oracles.
